@@ -94,7 +94,7 @@ fn judge(case: &Case<Program>, rep: &mut Report) {
 }
 
 pub fn run(ctx: &Ctx) -> (Spec, Report) {
-    let n = ctx.tier.pick(2400, 40_000);
+    let n = ctx.tier.pick(5000, 60_000);
     let mut rep = run_rounds(
         ctx,
         "C10",
